@@ -5,7 +5,7 @@
    (and slen elements of src); operands are never modified. *)
 EXTENDS Base
 
-CmpFns    == {"strcmp_s", "strcasecmp_s", "strcoll_s", "strcmpfld_s", "wcscmp_s", "wcsncmp_s"}
+CmpFns    == {"strcmp_s", "strcasecmp_s", "strcoll_s", "strcmpfld_s", "wcscmp_s", "wcsncmp_s", "wcsicmp_s"}
 MemCmpFns == {"memcmp_s", "memcmp16_s", "memcmp32_s", "wmemcmp_s"}
 FindFns   == {"strstr_s", "strcasestr_s", "wcsstr_s", "strpbrk_s"}
 ChrFns    == {"strchr_s", "strrchr_s", "strfirstchar_s", "strlastchar_s", "memchr_s", "memrchr_s"}
@@ -37,29 +37,35 @@ QOk(e) == [OkOut(Same0(e.pre)) EXCEPT !.rtag = {"C10"}]
 QStatus(e, rc) == [StatusOut(rc, Same0(e.pre)) EXCEPT !.rtag = {"C10"}]
 
 (* ---- comparisons: sign of the first differing pair within the first n elements ---- *)
+LowA(c) == IF c >= 65 /\ c <= 90 THEN c + 32 ELSE c
+FoldA(c, fold) == IF fold = "lower" THEN LowA(c) ELSE IF fold = "upper" THEN UpA(c) ELSE c
 RECURSIVE CmpStr(_, _, _, _, _)
-CmpStr(a, d, s, n, fold) ==     \* strcmp semantics, elements as unsigned values
-  IF n = 0 THEN 0
-  ELSE LET x == IF fold THEN UpA(a[d]) ELSE a[d]
-           y == IF fold THEN UpA(a[s]) ELSE a[s]
+CmpStr(a, d, s, n, fold) ==     \* strcmp semantics, elements as unsigned values; fold: "none", "lower" (strcasecmp, wcscasecmp: as if
+  IF n = 0 THEN 0               \* converted to lowercase), "upper" (what strcasecmp_s documents and does: see Dev_strcasecmp_upper)
+  ELSE LET x == FoldA(a[d], fold)
+           y == FoldA(a[s], fold)
        IN IF x # y THEN Sgn(x - y) ELSE IF a[d] = 0 THEN 0 ELSE CmpStr(a, d + 1, s + 1, n - 1, fold)
 RECURSIVE CmpMem(_, _, _, _)
 CmpMem(a, d, s, n) == IF n = 0 THEN 0 ELSE IF a[d] # a[s] THEN Sgn(a[d] - a[s]) ELSE CmpMem(a, d + 1, s + 1, n - 1)
 
 CmpOutcomes(e) ==
-  LET hass == e.fn \in {"wcscmp_s", "wcsncmp_s"}
+  LET hass == e.fn \in {"wcscmp_s", "wcsncmp_s", "wcsicmp_s"}
       V == QViol(e, TRUE, hass)
       n0 == IF hass THEN Min(e.dmax, e.slen) ELSE e.dmax
       n == IF e.fn = "wcsncmp_s" /\ e.n # HUGE THEN Min(n0, e.n) ELSE n0
   IN IF V # {} THEN QErrs(e, V)
      ELSE IF e.fn = "wcsncmp_s" /\ e.n = HUGE THEN {WithSg(QOk(e), 2)} \cup QErrs(e, {ESLEMAX})
      ELSE IF e.fn = "strcmpfld_s" THEN {WithSg(QOk(e), CmpMem(e.pre, e.d, e.s, e.dmax))}
-     ELSE {WithSg(QOk(e), CmpStr(e.pre, e.d, e.s, n, e.fn = "strcasecmp_s"))}
+     ELSE {WithSg(QOk(e), CmpStr(e.pre, e.d, e.s, n, IF e.fn \in {"strcasecmp_s", "wcsicmp_s"} THEN "lower" ELSE "none"))}
           \* documented for strcmp_s: ESUNTERM when src is unterminated - detectable only with a known object size of src,
           \* when the comparison would have to run past it
           \cup (IF e.fn = "strcmp_s" /\ e.sbos # UNK /\ e.sbos > 0 /\ ScanLen(e.pre, e.s, e.sbos) >= e.sbos
-                   /\ CmpStr(e.pre, e.d, e.s, Min(n, e.sbos), FALSE) = 0 /\ n >= e.sbos
+                   /\ CmpStr(e.pre, e.d, e.s, Min(n, e.sbos), "none") = 0 /\ n >= e.sbos
                 THEN QErrs(e, {ESUNTERM}) ELSE {})
+          \* wcsicmp_s folds each operand into a scratch string of twice its bound first: an operand with no terminator
+          \* inside its bound cannot be folded and is reported (ESNOSPC, from wcsfc_s) - admitted next to the bounded answer
+          \cup (IF e.fn = "wcsicmp_s" /\ (ScanLen(e.pre, e.d, e.dmax) >= e.dmax \/ ScanLen(e.pre, e.s, e.slen) >= e.slen)
+                THEN QErrs(e, {ESNOSPC}) ELSE {})
 
 MemCmpOutcomes(e) ==
   LET V == QViol(e, TRUE, TRUE) IN
@@ -193,9 +199,16 @@ StrQueryDeviations(e) ==
            THEN {[name |-> "Dev_password_term_at_dmax", props |-> {"C02", "C05", "C10"},
                   o |-> WithO1([StatusOut(NOSTAT, Same0(e.pre)) EXCEPT !.rtag = {"C10"}], {IF good THEN 1 ELSE 0})]}
            ELSE {})
+  ELSE IF e.fn = "strcasecmp_s" /\ QViol(e, TRUE, FALSE) = {}
+          /\ CmpStr(e.pre, e.d, e.s, e.dmax, "upper") # CmpStr(e.pre, e.d, e.s, e.dmax, "lower")
+  THEN \* Known finding: the characters are upper-cased before the comparison (documented, and the unit test pins the exact
+       \* difference '1' - 'I'); strcasecmp compares as if lower-cased: the sign differs when the first difference is a letter
+       \* against one of [ \ ] ^ _ `
+       {[name |-> "Dev_strcasecmp_upper", props |-> {"C10"},
+         o |-> WithSg(QOk(e), CmpStr(e.pre, e.d, e.s, e.dmax, "upper"))]}
   ELSE IF e.fn = "strcoll_s" /\ QViol(e, TRUE, FALSE) = {}
   THEN {[name |-> "Dev_strcoll_unbounded", props |-> {"C10", "C02"},
-         o |-> WithSg(QOk(e), CmpStr(e.pre, e.d, e.s, Len(e.pre), FALSE))],
+         o |-> WithSg(QOk(e), CmpStr(e.pre, e.d, e.s, Len(e.pre), "none"))],
         [name |-> "Dev_strcoll_unbounded", props |-> {"C02"},
          o |-> WithFault(Out("err", {-9999}, {<<>>}, Same0(e.pre)), "r", {AnyV})]}
   ELSE {}
